@@ -551,7 +551,8 @@ func (c *client) receive(r io.Reader) (err error) {
 	}()
 
 	if header.Exception != nil {
-		err = exceptionToError(*header.Exception.ExceptionClassName, *header.Exception.StackTrace)
+		err = exceptionToError(header.Exception.GetExceptionClassName(),
+			header.Exception.GetStackTrace())
 		return
 	}
 
@@ -574,6 +575,12 @@ func (c *client) receive(r io.Reader) (err error) {
 		cellsLen = header.CellBlockMeta.GetLength()
 	}
 	if d, ok := rpc.(canDeserializeCellBlocks); cellsLen > 0 && ok {
+		if uint64(cellsLen) > uint64(len(b)-headerLen-responseLen) {
+			err = RetryableError{fmt.Errorf(
+				"cellblock length %d is larger than what follows the response: %d bytes",
+				cellsLen, len(b)-headerLen-responseLen)}
+			return
+		}
 		b := b[size-cellsLen:]
 		if c.compressor != nil {
 			b, err = c.compressor.decompressCellblocks(b)
